@@ -16,6 +16,10 @@ Monitors per scenario:
   continue  : training continued after the transfer keeps agreeing with the model (incremental sequences 0-4 + 0-2)
   pickle    : builders, functors, trained actors through pickle / cloudpickle (same process) and cloudpickle into a
               fresh interpreter with another hash seed
+  falsy     : the five *Fold* flavours learn a value that may be 0, 0.0, '', [], {}, False, (): a trained actor must
+              transfer / continue / pickle as trained (only an empty exported STATE, b'' or None, means untrained);
+              continuation nests the next labels on the restored value, so a silent restart from None is visible.
+              280 directed cases (flavour x value x transfer x train mode) plus the random stream
 
 Oracle relaxations (forml behaviour defensible under the property text):
   * stdlib pickle is only demanded where pickle's own precondition holds (class resolvable by its qualified name);
@@ -40,6 +44,7 @@ last one is still a known finding:
   class-actor-stdlib-pickle-local-setter stdlib pickle of a wrapped-class actor instance: reducer uses a local lambda
   class-actor-unpickle-drops-ctor-args   wrapped-class actor with a mandatory ctor argument is rebuilt as ``actor()``
 """
+import copy
 import os
 import subprocess
 import sys
@@ -47,9 +52,10 @@ import sys
 PROPERTY = 'C13'
 LEVEL = 'exploration'
 RULE = (
-    'seeded random scenarios: flavour (17 test actors: native default/custom/sloppy/open/inherited/stateless, '
+    'seeded random scenarios: flavour (22 test actors: native default/custom/sloppy/open/inherited/stateless, '
     '@wrap.Actor.apply x2, train/apply pairs x3, wrap.Actor.type with name / callable / bare / assigned mappings, with and '
-    'without training method, with mandatory ctor arg) x namespace (importable / anonymous) x builder chain A (1-4 '
+    'without training method, with mandatory ctor arg; 5 "fold" actors - function pair, native default/custom state, class '
+    'with name/callable mapping - whose learned value is 0, 0.0, \'\', [], {}, False or ()) x namespace (importable / anonymous) x builder chain A (1-4 '
     'builder/update/reset ops, positional and keyword, falsy values) x chain B (0-2 ops) x 0-4 training steps (direct or '
     'state-chained functors, per-step alpha overrides) x transfer (raw, SetState, functor, functor+params) x pickle plan '
     '(builder / functor / actor by pickle / cloudpickle / other process) x 0-2 continued steps. distinct = distinct '
@@ -80,10 +86,10 @@ K_CTORARGS = 'class-actor-unpickle-drops-ctor-args'
 
 
 def _fl(kind, tag, stateful, pos, names, defaults, required=(), opened=False, multi=True, untrained='empty',
-        lenient=False, byname=True, sloppy=False):
+        lenient=False, byname=True, sloppy=False, fold=False):
     return {'kind': kind, 'tag': tag, 'stateful': stateful, 'pos': list(pos), 'names': list(names), 'defaults': defaults,
             'required': list(required), 'open': opened, 'multi': multi, 'untrained': untrained, 'lenient': lenient,
-            'byname': byname, 'sloppy': sloppy}
+            'byname': byname, 'sloppy': sloppy, 'fold': fold}
 
 
 AB = {'alpha': 1, 'beta': 'b'}
@@ -111,7 +117,17 @@ FLAVOURS = {
     'WrapAssigned': _fl('class-callable', 'wa', True, ['alpha', 'beta'], ['alpha', 'beta'], AB, byname=False),
     'WrapBare': _fl('class-bare', 'wb', True, ['alpha', 'beta'], ['alpha', 'beta'], AB),
     'WrapStateless': _fl('class-stateless', 'wl', False, ['alpha', 'beta'], ['alpha', 'beta'], AB),
+    # learned value may be falsy (0, 0.0, '', [], {}, False, ()): shown as ('S', value), see fold()
+    'FnFold': _fl('fn-stateful-fold', 'ff', True, [], ['alpha', 'beta'], AB, multi=False, untrained='raises', fold=True),
+    'NativeFoldDefault': _fl('native-default-fold', 'fd', True, ['alpha', 'beta'], ['alpha', 'beta'], {'alpha': 0, 'beta': 'b'}, fold=True),
+    'NativeFoldCustom': _fl('native-custom-fold', 'fc', True, ['alpha', 'beta'], ['alpha', 'beta'], {'alpha': 0, 'beta': 'b'}, fold=True),
+    'WrapFoldNamed': _fl('class-named-fold', 'wf', True, ['alpha', 'beta'], ['alpha', 'beta'], AB, fold=True),
+    'WrapFoldCallable': _fl('class-callable-fold', 'wg', True, ['alpha', 'beta'], ['alpha', 'beta'], AB, byname=False, fold=True),
 }
+# labels of the fold flavours, by name so that a JSON witness keeps [] / () / 0 / 0.0 / False apart
+FOLD_LABELS = {'int0': 0, 'float0': 0.0, 'str': '', 'list': [], 'dict': {}, 'false': False, 'tuple': (),
+               'int5': 5, 'strw': 'w', 'list1': [1], 'dict1': {'k': 1}}
+FALSY = ['int0', 'float0', 'str', 'list', 'dict', 'false', 'tuple']
 STATEFUL_EXTRA = {'StatefulByMixin': True, 'StatelessChild': False, 'WrapMissingTrain': False, 'WrapCallableTrain': True}
 VALUES = [0, 1, -2, 7, '', 'a', 'zz', None, 0.5, [1, 2], []]
 FEATURES = [0, 3, -1, 'f', 'gg', '', [1, 'u'], [], None, 2.5]
@@ -131,7 +147,8 @@ def floors(tier):
         'transfer_checked': 1500 * scale, 'twin_equal_checked': 300 * scale, 'precedence_checked': 600 * scale,
         'empty_state_checked': 1500 * scale, 'continue_checked': 500 * scale, 'pickle_builder_checked': 500 * scale,
         'pickle_actor_checked': 500 * scale, 'pickle_functor_checked': 200 * scale, 'xproc_checked': 40 * (1 if tier == 'quick' else 8),
-        'apply_compared': 8000 * scale, 'directed_stateful_checked': 30,
+        'apply_compared': 8000 * scale, 'directed_stateful_checked': 30, 'directed_falsy_checked': 280,
+        'falsy_state_checked': 400 + 100 * (scale - 1),
     }
 
 
@@ -179,10 +196,29 @@ def valid(flavour, args, kwargs, complete):
     return not complete or set(flavour['required']) <= supplied(flavour, args, kwargs)
 
 
+def fold(history):
+    """Learned value of the fold flavours: first labels as they are, later ones nested on top."""
+    state = None
+    for _, labels, _ in history:
+        state = labels if state is None else (state, labels)
+    return state
+
+
+def decode_label(value):
+    """Decode a scenario label ({'$': name} names a fold label)."""
+    if isinstance(value, dict) and '$' in value:
+        return copy.deepcopy(FOLD_LABELS[value['$']])
+    return freeze(value)
+
+
 def expected(flavour, params, history, inputs):
     if flavour['stateful'] and flavour['untrained'] == 'raises' and not history:
         return ('raise', 'RuntimeError')
-    return ('ok', (flavour['tag'], tuple(sorted(params.items())), tuple(history) if flavour['stateful'] else (), tuple(inputs)))
+    if flavour['fold']:
+        view = ('S', fold(history))
+    else:
+        view = tuple(history) if flavour['stateful'] else ()
+    return ('ok', (flavour['tag'], tuple(sorted(params.items())), view, tuple(inputs)))
 
 
 def differ(flavour, observed, wanted, demanded=None):
@@ -271,12 +307,18 @@ def gen_scenario(rng, names):
     alpha_positional = bool(end_a[0]) and 'alpha' in flavour['pos'][:len(end_a[0])]
     overridable = not alpha_positional and 'alpha' in model_params(flavour, *end_a)
     steps = []
-    for _ in range(rng.choice([0, 1, 1, 2, 2, 3, 4]) if flavour['stateful'] else 0):
-        step = [rng.choice(FEATURES), rng.choice(FEATURES)]
+
+    def gen_label(first):
+        if not flavour['fold']:
+            return rng.choice(FEATURES)
+        return {'$': rng.choice(FALSY) if first and rng.random() < 0.8 else rng.choice(sorted(FOLD_LABELS))}
+
+    for _ in range((rng.choice([0, 1, 1, 1, 2, 3, 4]) if flavour['fold'] else rng.choice([0, 1, 1, 2, 2, 3, 4])) if flavour['stateful'] else 0):
+        step = [rng.choice(FEATURES), gen_label(not steps)]
         if rng.random() < 0.3 and overridable:
             step.append({'alpha': gen_value(rng)})
         steps.append(step)
-    more = [[rng.choice(FEATURES), rng.choice(FEATURES)] for _ in range(rng.choice([0, 1, 2]) if flavour['stateful'] else 0)]
+    more = [[rng.choice(FEATURES), gen_label(False)] for _ in range(rng.choice([0, 1, 2]) if flavour['stateful'] else 0)]
     ninputs = rng.choice([1, 2, 3])
     inputs = [[rng.choice(FEATURES) for _ in range(rng.choice([1, 1, 2, 3]) if flavour['multi'] else 1)] for _ in range(ninputs)]
     transfer = rng.choice(TRANSFERS[1:] if flavour['sloppy'] else TRANSFERS)
@@ -302,7 +344,7 @@ def signature(scenario):
 
     return (
         scenario['flavour'], scenario['space'], ops(scenario['chain_a']), ops(scenario['chain_b']),
-        [len(s) for s in scenario['steps']], len(scenario['more']), [len(i) for i in scenario['inputs']],
+        [(len(s), s[1]['$'] if isinstance(s[1], dict) else None) for s in scenario['steps']], len(scenario['more']), [len(i) for i in scenario['inputs']],
         scenario['train_mode'], scenario['transfer'], sorted(scenario['pick'].items()), sorted(scenario['call']),
         sorted(scenario['preset']), scenario['xproc'],
     )
@@ -435,8 +477,8 @@ def run_scenario(ctx, env, scenario, force_xproc=False):  # pylint: disable=too-
     ctx.count('evaluations')
     ctx.count(f"flavour_{scenario['flavour']}")
     inputs = [freeze(i) for i in scenario['inputs']]
-    steps = [(freeze(s[0]), freeze(s[1]), freeze(s[2]) if len(s) > 2 else None) for s in scenario['steps']]
-    more = [(freeze(s[0]), freeze(s[1])) for s in scenario['more']]
+    steps = [(freeze(s[0]), decode_label(s[1]), freeze(s[2]) if len(s) > 2 else None) for s in scenario['steps']]
+    more = [(freeze(s[0]), decode_label(s[1])) for s in scenario['more']]
     nontrivial = bool(steps) or bool(scenario['chain_b']) or any(v != 'none' for v in scenario['pick'].values())
     if nontrivial:
         ctx.shape(signature(scenario))
@@ -514,7 +556,7 @@ def run_scenario(ctx, env, scenario, force_xproc=False):  # pylint: disable=too-
             """In functor mode an override lives for one step only (like a per-step builder); in direct mode it stays."""
             if override:
                 twin.set_params(**override)
-            twin.train(features, labels)
+            twin.train(features, copy.deepcopy(labels))
             if override and functor_mode:
                 twin.set_params(alpha=twin_params['alpha'])
 
@@ -533,7 +575,7 @@ def run_scenario(ctx, env, scenario, force_xproc=False):  # pylint: disable=too-
             functor, okay = case.roundtrip('functor', functor, scenario['pick']['functor'])
             if not okay:
                 return
-            outcome = attempt(functor.execute, chained, features, labels)
+            outcome = attempt(functor.execute, chained, features, copy.deepcopy(labels))
             if outcome[0] != 'ok' or not isinstance(outcome[1], bytes):
                 case.report(f'train-raises-{case.kind}-functor', f'SetState(Train) functor gave {outcome!r:.300}', 'train')
                 return
@@ -546,6 +588,9 @@ def run_scenario(ctx, env, scenario, force_xproc=False):  # pylint: disable=too-
     if not flavour['stateful'] and exported[1] != b'':
         ctx.count('stateless_exported_state')  # not demanded by the property; the transfer below shows any consequence
     state = chained if functor_mode and steps else exported[1]
+    if flavour['fold'] and history and not fold(history):
+        ctx.count('falsy_state_checked')  # trained, yet the learned value is falsy: must still transfer as trained
+        ctx.note_set('falsy_states_seen', f"{case.kind}:{fold(history)!r}")
     twin_out = [attempt(twin.apply, *x) for x in inputs]
     wanted_twin = [expected(flavour, twin_params, history, x) for x in inputs]
     if not case.compare('twin', 'direct', twin_out, wanted_twin):
@@ -637,13 +682,13 @@ def run_scenario(ctx, env, scenario, force_xproc=False):  # pylint: disable=too-
         ctx.count('continue_checked')
         cont_history = list(history)
         if raw_branch:
-            result = attempt(lambda: [fresh.train(f, l) for f, l in more])
+            result = attempt(lambda: [fresh.train(f, copy.deepcopy(l)) for f, l in more])
             observed = [attempt(fresh.apply, *x) for x in inputs] if result[0] == 'ok' else [result]
             cont_params = params_fresh
         else:
             cont_state, result = state, ('ok', None)
             for features, labels in more:
-                result = attempt(user.Train().functor(builder_b).preset_state().execute, cont_state, features, labels)
+                result = attempt(user.Train().functor(builder_b).preset_state().execute, cont_state, features, copy.deepcopy(labels))
                 if result[0] != 'ok':
                     break
                 cont_state = result[1]
@@ -673,7 +718,7 @@ def run_scenario(ctx, env, scenario, force_xproc=False):  # pylint: disable=too-
                 return
             if more:
                 features, labels = more[0]
-                both = attempt(lambda: (back.train(features, labels), twin.train(features, labels)))
+                both = attempt(lambda: (back.train(features, copy.deepcopy(labels)), twin.train(features, copy.deepcopy(labels))))
                 observed = [attempt(back.apply, *x) for x in inputs]
                 original = [attempt(twin.apply, *x) for x in inputs]
                 wanted = [expected(flavour, twin_params, history + [(features, labels, twin_params.get('alpha'))], x) for x in inputs]
@@ -695,7 +740,7 @@ def run_scenario(ctx, env, scenario, force_xproc=False):  # pylint: disable=too-
                     if override:
                         twin2[1].set_params(**override)
                         running.update(override)
-                    twin2[1].train(features, labels)
+                    twin2[1].train(features, copy.deepcopy(labels))
                     history2.append((features, labels, running.get('alpha')))
 
             if attempt(retrain)[0] != 'ok':
@@ -825,6 +870,23 @@ def directed(ctx, env):
             'flavour': name, 'space': 'static', 'chain_a': [['builder', [], {'alpha': 4}]], 'chain_b': [], 'steps': [['f', 'l']],
             'more': [], 'inputs': [['x']], 'train_mode': 'direct', 'transfer': 'raw',
             'pick': {'builder': how, 'functor': 'none', 'actor': how}, 'call': {}, 'preset': {}, 'xproc': False})
+    # falsy learned states: every fold flavour x falsy value x transfer path x train mode x namespace (sharded), one
+    # training step (the exported state *is* the falsy value), one continued step, trained actor through cloudpickle
+    index = 0
+    for name in [n for n, f in FLAVOURS.items() if f['fold']]:
+        for value in FALSY:
+            for transfer in TRANSFERS:
+                for mode in ('direct', 'functor'):
+                    index += 1
+                    if not ctx.mine(index) or not available.get(name):
+                        continue
+                    ctx.count('directed_falsy_checked')
+                    run_scenario(ctx, env, {
+                        'flavour': name, 'space': SPACES[index % 2], 'chain_a': [['builder', [], {'alpha': 4}]],
+                        'chain_b': [['update', [], {'beta': 'q'}]] if index % 3 else [], 'steps': [['f', {'$': value}]],
+                        'more': [['g', {'$': 'int5'}]], 'inputs': [['x']], 'train_mode': mode, 'transfer': transfer,
+                        'pick': {'builder': 'none', 'functor': 'cloudpickle' if index % 5 == 0 else 'none', 'actor': 'cloudpickle'},
+                        'call': {}, 'preset': {'beta': 'r'} if transfer == 'functor-params' else {}, 'xproc': index % 7 == 0})
     return [name for name in FLAVOURS if available.get(name)]
 
 
